@@ -252,16 +252,81 @@ def handleResponse (c : Sq) (st : Store) (r : VpResponse) : Ans × Store :=
       else if !r.tenantOk then (E 4, st)
       else validateNonce c st (p :: ps) state
 
-/-! ### a request of either endpoint, and sequences of them with time passing in between -/
+/-! ### request objects (api.go RequestJWTByGet / RequestJWTByPost), landing page (user.go handleUserLanding),
+    DPoP proof validation (dpop.go ValidateDPoPProof) -/
+
+structure ReqObjFetch where
+  id : String
+  /-- subject of the path; the stored object names the subject it was made for (`ro.Client` = its base URL) -/
+  subject : String
+  /-- which endpoint is used -/
+  post : Bool
+  deriving DecidableEq, Repr, Inhabited
+
+def reqObjKey (id : String) : Key := ⟨.burn .reqObj, id⟩
+
+/-- the stored request object, as far as the handlers look at it: `client|request_uri_method` -/
+def roClient (v : String) : String := (v.splitOn "|").headD ""
+def roMethod (v : String) : String := ((v.splitOn "|").drop 1).headD ""
+
+/-- RequestJWTByGet / RequestJWTByPost up to the signer: GetAndDelete first, then the two comparisons -/
+def handleReqObj (c : Sq) (st : Store) (r : ReqObjFetch) : Ans × Store :=
+  let E := errAt (if r.post then Facts.C05.errs_RequestJWTByPost else Facts.C05.errs_RequestJWTByGet)
+  match gadSeq c st (reqObjKey r.id) with
+  | (none, st1) => (E 0, st1)
+  | (some v, st1) =>
+    if roClient v ≠ r.subject then (E 1, st1)
+    else if roMethod v ≠ (if r.post then "post" else "get") then (E 2, st1)
+    else (.ok, st1)
+
+def redirectKey (t : String) : Key := ⟨.burn .redirect, t⟩
+
+/-- handleUserLanding up to the user session: empty token → 403 without looking; GetAndDelete; miss → 403 -/
+def handleLanding (c : Sq) (st : Store) (token : String) : Ans × Store :=
+  if token = "" then (.err "403" "missing token", st)
+  else match gadSeq c st (redirectKey token) with
+    | (none, st1) => (.err "403" "token not found in store", st1)
+    | (some _, st1) => (.ok, st1)
+
+structure DpopReq where
+  /-- dpop.Parse succeeds -/
+  parses : Bool := true
+  /-- thumbprint, method and URL of the request match the proof -/
+  matchOk : Bool := true
+  athPresent : Bool := true
+  /-- the ath claim is the hash of the access token of the request -/
+  athOk : Bool := true
+  jti : String
+  deriving DecidableEq, Repr, Inhabited
+
+def jtiKey (j : String) : Key := ⟨.mark .jti, j⟩
+
+/-- ValidateDPoPProof: the jti is registered only after every other check passed (`.err "invalid" reason` = `Valid: false`) -/
+def handleDpop (c : Sq) (st : Store) (r : DpopReq) : Ans × Store :=
+  if !r.parses then (.err "invalid" "failed to parse DPoP header", st)
+  else if !r.matchOk then (.err "invalid" "mismatch", st)
+  else if !r.athPresent then (.err "invalid" "missing ath claim", st)
+  else if !r.athOk then (.err "invalid" "ath/token claim mismatch", st)
+  else match pifSeq c st (jtiKey r.jti) (markVal .jti) with
+    | (false, st1) => (.err "invalid" "jti already used", st1)
+    | (true, st1) => (.ok, st1)
+
+/-! ### a request of any endpoint, and sequences of them with time passing in between -/
 
 inductive Form where
   | token (f : TokenForm)
   | response (r : VpResponse)
+  | reqObj (r : ReqObjFetch)
+  | landing (token : String)
+  | dpop (r : DpopReq)
   deriving DecidableEq, Repr, Inhabited
 
 def handleForm (c : Sq) (pk : Pkce) (st : Store) : Form → Ans × Store
   | .token f => handleToken c pk st f
   | .response r => handleResponse c st r
+  | .reqObj r => handleReqObj c st r
+  | .landing t => handleLanding c st t
+  | .dpop r => handleDpop c st r
 
 /-- requests served one after the other; `dt` seconds pass before each -/
 def runForms (incl : Bool) (ttl : Kind → Nat) (pk : Pkce) : Nat → Store → List (Nat × Form) → List Ans × Store × Nat
